@@ -73,7 +73,7 @@ fn main() {
     sim::install_quiet_panic_hook();
     runner::start_watchdog(match opts.tier {
         Tier::Quick => 900,
-        Tier::Thorough => 7200,
+        Tier::Thorough => 14_400,
     });
     let code = match id.as_str() {
         "C01" => drive(&props::bulkhead::C01, &opts),
